@@ -801,3 +801,67 @@ def innovation_logs(L, roles):
         else:
             od = k if od is None else od
     return td, od
+
+
+# =============================================================================================
+# the REAL (uncut) feedback filter in the trace domain: real Integrator, real error model, real sensor models and
+# _correct_increments on symbolic cells; only the covariance algebra (kalman.correct, process matrices, sd) is stubbed
+# by uninterpreted values.  Schedules are concrete, every payload value is symbolic.
+# =============================================================================================
+def feedback_filter_trace(py, times, stamps_by_sensor, time_step, with_altitude, gyro_cfg=None, accel_cfg=None, t0=0.0):
+    from pvx.loader import tdomain
+    from pvx.sym import T as _T, TSym
+    from props.C02 import t_pva, t_increments
+    F, IS = py.filters, py.inertial_sensor
+    counter = [0]
+
+    def tvec(tag, n):
+        counter[0] += 1
+        a = np.empty(n, dtype=object)
+        for i in range(n):
+            a[i] = _T("%s%d_%d" % (tag, counter[0], i))
+        return a
+
+    def tmat(tag, n, m):
+        counter[0] += 1
+        a = np.empty((n, m), dtype=object)
+        for i in range(n):
+            for j in range(m):
+                a[i, j] = _T("%s%d_%d_%d" % (tag, counter[0], i, j))
+        return a
+
+    class Sensor:
+        def __init__(self, stamps, k):
+            self.data = pd.DataFrame(np.zeros((len(stamps), 3)), index=np.asarray(stamps, dtype=float), columns=["c0", "c1", "c2"])
+            self.k = k
+
+        def compute_matrices(self, time_, pva, error_model):
+            if time_ not in self.data.index:
+                return None
+            rows = 2 if not error_model.with_altitude else 3
+            return tvec("z", rows), tmat("H", rows, error_model.n_states), tmat("R", rows, rows)
+    sensors = [type("Sensor%d" % k, (Sensor,), {})(st, k) for k, st in enumerate(stamps_by_sensor)]
+
+    class KS:
+        @staticmethod
+        def correct(x, P, z, H, R):
+            n = len(x)
+            return tvec("x", n), tmat("P", n, n), tvec("inn", len(z))
+    with tdomain(py, extra=[(F, dict(kalman=KS,
+                                      _initialize_covariance=lambda pva, a, b, c, d, em, gm, am: tmat("P0", em.n_states + gm.n_states + am.n_states, em.n_states + gm.n_states + am.n_states),
+                                      _compute_error_propagation_matrices=lambda pva, g, a, dt, em, gm, am: (tmat("Phi", em.n_states + gm.n_states + am.n_states, em.n_states + gm.n_states + am.n_states),
+                                                                                                          tmat("Qd", em.n_states + gm.n_states + am.n_states, em.n_states + gm.n_states + am.n_states)),
+                                      _compute_sd=lambda *a, **k: (None, None, None),
+                                      _interpolate_pva=lambda a, b, al: a))]):
+        gm = IS.EstimationModel(**(gyro_cfg or {}))
+        am = IS.EstimationModel(**(accel_cfg or {}))
+        pva = t_pva("p", t0=t0)
+        inc = t_increments(list(times))
+        # the dt column must be usable as a divisor of times: concrete differences
+        dts = np.diff(np.concatenate([[t0], np.asarray(times, dtype=float)]))
+        inc = inc.copy()
+        for k in range(len(times)):
+            inc.iloc[k, 0] = _T(float(dts[k]))
+        res = F.run_feedback_filter(pva, 1.0, 1.0, 1.0, 1.0, inc, gm, am, measurements=sensors, time_step=time_step, with_altitude=with_altitude)
+        ref = py.strapdown.Integrator(pva, with_altitude).integrate(inc)
+    return res, pva, inc, ref
